@@ -1,5 +1,6 @@
 import Std.Data.HashMap
 import NutsModel.Drv.Common
+import NutsModel.Model.DepthWindow
 import NutsModel.Model.Tree
 
 namespace NutsModel.Drv.C01
@@ -194,10 +195,45 @@ def drawRec (t : Toks) : Verdict := Id.run do
         return .mismatch s!"draw case={p.case}: mean_tree_accept_sym model={showF c.mean_sym.current} impl={showF ams}"
     return .ok
 
+/-- `window case T eps optMin optMax depthNeverTurning depthAlwaysTurning`: the REAL `nuts::draw` with a target
+    integration time on a mock orbit that never U-turns (its depth is the effective maxdepth) and on one that always
+    U-turns (its depth is the effective mindepth, capped); compared with `Model.depthWindow`. -/
+def windowRec (t : Toks) : Verdict := Id.run do
+  let some case := natAt t 1 | return .bad "case"
+  let some tt := fAt t 2 | return .bad "T"
+  let some eps := fAt t 3 | return .bad "eps"
+  let some optMin := natAt t 4 | return .bad "mindepth"
+  let some optMax := natAt t 5 | return .bad "maxdepth"
+  let some dNever := natAt t 6 | return .bad "depth"
+  let some dAlways := natAt t 7 | return .bad "depth"
+  -- `(target_time / step_size).ceil() as u64`
+  let ms := (Float.ceil (tt / eps)).toUInt64.toNat
+  if ms == 0 then return .dontcare      -- log2(0): outside the property's domain (T > 0 with T/eps not underflowing)
+  -- the float route of the Rust code must agree with the integer logarithms of the model (exact below 2^53)
+  let fl := (Float.floor (Float.log2 (Float.ofNat ms))).toUInt64.toNat
+  let ce := (Float.ceil (Float.log2 (Float.ofNat ms))).toUInt64.toNat
+  if fl != NutsModel.Model.log2Floor ms || ce != NutsModel.Model.log2Ceil ms then return .dontcare
+  let (lo, hi) := NutsModel.Model.depthWindow ms optMin optMax
+  -- depth the tree model reaches with this window on a flat orbit that never / always satisfies the U-turn criterion
+  let modelDepth (always : Bool) : Option Nat :=
+    let o : Orbit Float := { energyErr := fun _ => 0.0, leap := fun _ => .ok, crit := fun _ _ => always }
+    match Rand.run ((draw o { maxdepth := hi, mindepth := lo, checkTurning := true, extraDoublings := 0 }).run {}) (List.replicate 4096 0) with
+    | .done (.ok r, _) _ => some r.depth
+    | _ => none
+  let some mNever := modelDepth false | return .bad "model run"
+  let some mAlways := modelDepth true | return .bad "model run"
+  if mNever != hi then return .mismatch s!"window case={case}: tree model does not reach maxdepth' {hi} on a never-turning orbit ({mNever})"
+  if dNever != mNever then
+    return .mismatch s!"window case={case}: never-turning orbit reached depth {dNever}, model (maxdepth' = {hi}) {mNever} (max_steps {ms}, options {optMin}..{optMax})"
+  if dAlways != mAlways then
+    return .mismatch s!"window case={case}: always-turning orbit stopped at depth {dAlways}, model (window {lo}..{hi}) {mAlways} (max_steps {ms}, options {optMin}..{optMax})"
+  return .ok
+
 def dispatch (t : Toks) : Option Verdict :=
   match t[0]? with
   | some "lae" => some (lae t)
   | some "draw" => some (drawRec t)
+  | some "window" => some (windowRec t)
   | _ => none
 
 end NutsModel.Drv.C01
